@@ -47,6 +47,7 @@ LINE_PATTERNS = [
     (r"^\{cxx_var\} = new \{cxx_type\};$", [("acq", CMEM)]),
     (r"^(\{npy_intp_asgn\})?Py_INCREF\(\{PYN_descr\}\);$", [("acq", DESCR), ("hand", DESCR)]),
     (r"^self->\{PY_member_object\} = \{value_var\}\.obj;  // steal reference$", [("hand", CONVOBJ)]),
+    (r"^Py_INCREF\(\{py_var\}\);$", [("acq", PYVAR)]),      # the argument object itself is returned: a new reference
     # --- releases
     (r"^Py_XDECREF\(\{py_var\}\);$", [("rel", PYVAR)]),
     (r"^\{PY_cleanup_decref\}\(\{py_var\}\);$", [("rel", PYVAR)]),
@@ -147,6 +148,7 @@ for lang in ("c", "cxx"):
         row["goto_fail"] = bool(blk.goto_fail)
         fd = blk.fmtdict or {}
         row["ctor_expr"] = fd.get("ctor_expr", "")
+        row["cxx_local_var"] = blk.cxx_local_var or ""
         row["has_getter"] = bool(blk.getter or blk.setter)
         out["stmts"].append(row)
 for name, t in typemap.get_global_types().items():
@@ -263,7 +265,8 @@ def build_rows(data):
             nParseArgs=len(r["parse_args"]), acquires=acq, handed=hand, relSuccess=rel_s, relFail=rel_f,
             objectCreated=r["object_created"], gotoFlag=r["goto_fail"], gotoText=goto_text,
             failText=bool(r["fail"] or r["fail_capsule"]), argCall=[arg_shape(a) for a in r["arg_call"]],
-            ctorArgs=count_args(r["ctor_expr"])))
+            ctorArgs=count_args(r["ctor_expr"]), cxxLocal=bool(r["cxx_local_var"]),
+            ctorUsesC="{c_var}" in r["ctor_expr"], ctorUsesCxx="{cxx_var}" in r["ctor_expr"]))
     type_rows = []
     for t in data["types"]:
         inner, arity = "", 0
@@ -312,10 +315,11 @@ def render(names, groups, stmt_rows, type_rows, classes):
     for r in stmt_rows:
         rows.append("  { name := %d, lang := %d, sgroup := %d, parseFormat := %s, nParseArgs := %d, acquires := %s, handed := %s, "
                     "relSuccess := %s, relFail := %s, objectCreated := %s, gotoFlag := %s, gotoText := %s, failText := %s, "
-                    "argCall := %s, ctorArgs := %d }" % (
+                    "argCall := %s, ctorArgs := %d, cxxLocal := %s, ctorUsesC := %s, ctorUsesCxx := %s }" % (
                         r["name"], r["lang"], r["sgroup"], txt(r["parseFormat"]), r["nParseArgs"], lres(r["acquires"]),
                         lres(r["handed"]), lres(r["relSuccess"]), lres(r["relFail"]), lb(r["objectCreated"]), lb(r["gotoFlag"]),
-                        lb(r["gotoText"]), lb(r["failText"]), "[" + ", ".join(map(str, r["argCall"])) + "]", r["ctorArgs"]))
+                        lb(r["gotoText"]), lb(r["failText"]), "[" + ", ".join(map(str, r["argCall"])) + "]", r["ctorArgs"],
+                        lb(r["cxxLocal"]), lb(r["ctorUsesC"]), lb(r["ctorUsesCxx"])))
     o.append(",\n".join(rows) + " ]")
     o.append("")
     o.append("def typeRows : List TypeRow := [")
